@@ -28,6 +28,36 @@ def _thue(n):
     return bytes(0x61 + (bin(i).count("1") & 1) for i in range(n))
 
 
+_DB_CACHE = {}
+
+
+def _debruijn(k, n):
+    """First n symbols of the order-3 de Bruijn sequence over k letters (FKM)."""
+    key = k
+    if key not in _DB_CACHE:
+        order = 3
+        a = [0] * (k * order)
+        seq = bytearray()
+        # iterative FKM (Lyndon words whose length divides the order)
+        def db(t, p):
+            if t > order:
+                if order % p == 0:
+                    seq.extend(a[1:p + 1])
+            else:
+                a[t] = a[t - p]
+                db(t + 1, p)
+                for j in range(a[t - p] + 1, k):
+                    a[t] = j
+                    db(t + 1, t)
+        db(1, 1)
+        _DB_CACHE.clear()
+        _DB_CACHE[key] = bytes(seq)
+    s = _DB_CACHE[key]
+    if n > len(s):
+        s = s * (n // len(s) + 1)
+    return bytes(b + 32 for b in s[:n])
+
+
 def seg_bytes(seg):
     k = seg[0]
     if k == "run":          # ("run", byte, len)
@@ -84,6 +114,17 @@ def seg_bytes(seg):
             out += bytes([v]) * r.choice(lens)
             last = v
         return bytes(out)
+    if k == "debruijn":     # ("debruijn", k, n): prefix of an order-3 de Bruijn sequence over k letters
+        return _debruijn(seg[1], seg[2])
+    if k == "fill":         # ("fill", n, seed): random bytes without any equal neighbours (RLE1 size == n)
+        r = random.Random(seg[2])
+        b = bytearray(r.randbytes(seg[1]))
+        for i in range(1, len(b)):
+            if b[i] == b[i - 1]:
+                b[i] = (b[i] + 1 + (r.randrange(254))) % 256
+                if b[i] == b[i - 1]:
+                    b[i] = (b[i] + 1) % 256
+        return bytes(b)
     if k == "lit":          # ("lit", hexstring)
         return bytes.fromhex(seg[1])
     raise ValueError(seg)
@@ -159,48 +200,49 @@ def _prefix_cost_in_run(k):
     return 5 * (k // 259) + (r if r < 4 else 5)
 
 
-def greedy_take(data, start, cap):
-    """Longest prefix length n of data[start:] with rle1_len(prefix) <= cap.
-    Pure model: walk maximal runs."""
-    # walk runs lazily with a regex-free loop over numpy run table
-    raise NotImplementedError
-
-
 def greedy_blocks(data, cap):
     """Split data greedily: each block is the longest prefix of the rest whose
     RLE1 size (trailing run flushed) is <= cap.  Returns list of
-    (consumed_bytes, rle1_size)."""
+    (consumed_bytes, rle1_size).  A block that starts in the middle of a run
+    sees the remainder of that run as a fresh run (as the encoder does)."""
     out = []
-    n = len(data)
-    if n == 0:
+    if len(data) == 0:
         return out
     rl = run_lengths(data)
-    # position in run table
+    nruns = len(rl)
+    cost = run_cost(rl).astype(np.int64)
+    cum = np.concatenate(([0], np.cumsum(cost)))     # cum[j] = cost of runs [0, j)
     i = 0          # run index
     off = 0        # bytes of run i already consumed by previous blocks
-    nruns = len(rl)
     while i < nruns:
-        used = 0       # cost so far in this block
+        used = 0
         consumed = 0
-        # A block that starts in the middle of a run: the remainder of that run
-        # is a fresh run for the encoder.
-        while i < nruns:
+        if off:
             L = int(rl[i]) - off
             c = _prefix_cost_in_run(L)
-            if used + c <= cap:
-                used += c
-                consumed += L
+            if c <= cap:
+                used, consumed = c, L
                 i += 1
                 off = 0
+            else:
+                k = _max_k(cap, L)
+                out.append((k, _prefix_cost_in_run(k)))
+                if k == 0:
+                    raise AssertionError("model made no progress")
+                off += k
                 continue
-            # take the longest k < L with used + cost(k) <= cap
-            room = cap - used
-            # cost is nondecreasing in k; find max k with cost(k) <= room
-            k = _max_k(room, L)
-            used += _prefix_cost_in_run(k)
-            consumed += k
-            off += k
-            break
+        if i < nruns:
+            # whole runs i..j-1 fit: cum[j] - cum[i] <= cap - used
+            j = int(np.searchsorted(cum, cum[i] + (cap - used), side="right")) - 1
+            j = min(max(j, i), nruns)
+            used += int(cum[j] - cum[i])
+            consumed += int(rl[i:j].sum())
+            i = j
+            if i < nruns:
+                k = _max_k(cap - used, int(rl[i]))
+                used += _prefix_cost_in_run(k)
+                consumed += k
+                off = k
         out.append((consumed, used))
         if consumed == 0:
             raise AssertionError("model made no progress")
